@@ -8,6 +8,7 @@ import (
 	"testing"
 
 	"github.com/bilibili/smgo/sm2"
+	"verif/guard"
 	"verif/refs/sm2ref"
 	"verif/vx"
 )
@@ -15,6 +16,8 @@ import (
 // c10arena lays all arguments out inside one backing array: every argument is a sub-slice whose capacity extends over
 // whatever follows it (as with fields of one serialized record), separated by canary bytes. After each call the whole
 // array must be unchanged, so a write into the spare capacity of an input (append on an argument) is seen.
+var c10ro = guard.NewRO(4)
+
 type c10arena struct {
 	buf  []byte
 	snap []byte
@@ -104,6 +107,32 @@ func TestVX_C10_SM2(t *testing.T) {
 					}
 					r.Shape(fmt.Sprintf("%s:k%d:l%d:o%d", name, ki, l, oi))
 					r.Sample(cs)
+				}
+				// the same calls with every argument in memory the process may read but not write: a call that stores into one
+				// of its inputs - even if it puts the bytes back before it returns, which the comparison above cannot see -
+				// faults
+				if oi == 0 {
+					sd, spx, spy, sid, smsg, sza, se, srr, sss := d, px, py, id, msg, za, e, rr, ss
+					c10ro.Reset()
+					d, px, py, id, msg, za, e, rr, ss = c10ro.Put(vals["priv"]), c10ro.Put(vals["pubx"]), c10ro.Put(vals["puby"]), c10ro.Put(vals["id"]), c10ro.Put(vals["msg"]), c10ro.Put(vals["za"]), c10ro.Put(vals["e"]), c10ro.Put(vals["r"]), c10ro.Put(vals["s"])
+					c10ro.Seal()
+					for _, name := range []string{"DerivePublic", "CheckOnCurve", "TestPrivateKey", "ZA", "Sign", "SignZa", "SignHashed", "Verify", "VerifyZa", "VerifyHashed"} {
+						r.Eval(1)
+						var a string
+						kind, m := vx.TryFault(func() { a = calls[name]() })
+						cs := map[string]interface{}{"fn": name, "key": ki, "len": l, "order": oi, "memory": "read-only"}
+						switch {
+						case kind == "fault":
+							r.Violation("buf:sm2:"+name+":writes-read-only-input", fmt.Sprintf("%s wrote to one of its arguments (all of them were placed in read-only memory): %s", name, m), cs)
+						case kind != "":
+							r.Violation("buf:sm2:"+name+":panic", m, cs)
+						case a != want[name]:
+							r.Violation("buf:sm2:"+name+":wrong-with-read-only-inputs", fmt.Sprintf("%s returned %s, expected %s", name, a, want[name]), cs)
+						}
+						r.Shape(fmt.Sprintf("%s:k%d:l%d:ro", name, ki, l))
+					}
+					c10ro.Reset()
+					d, px, py, id, msg, za, e, rr, ss = sd, spx, spy, sid, smsg, sza, se, srr, sss
 				}
 				// buffer reuse history: the caller refills the *same* buffers with another user's data of the same lengths and
 				// calls again; the answers must be those of the new contents (nothing may be remembered by buffer identity)
